@@ -27,6 +27,8 @@ Check(e) ==
          /\ Report(e.key_bytes = SshEnc(e.kind, e.abs), <<"BAD", "key-blob-is-not-rfc4253-encoding", l>>)
          /\ Report(e.sha256_ok /\ e.sha1_ok /\ e.md5_ok, <<"BAD", "fingerprint-is-not-digest-of-blob", l>>)
          /\ Report(e.known_hosts_ok, <<"BAD", "known-hosts-is-not-base64-of-blob", l>>)
+         \* a blob that IS the specified encoding (first clause), received and parsed: same fingerprint
+         /\ Report(e.key_bytes # SshEnc(e.kind, e.abs) \/ e.reparsed_ok, <<"BAD", "fingerprint-of-the-parsed-blob-differs", l>>)
     [] e.ev = "wirefp" ->        \* a key or certificate as received: the fingerprint is the digest of the received blob.
          \* For a blob in another than the canonical spelling (an mpint with leading zeros, ...) the library hashes the
          \* canonical blob of the key; the property text does not say which of the two is "the" blob: reported, not judged.
